@@ -453,7 +453,7 @@ PROPS = {
             "Astral.C09.dawn_same_offsets", "Astral.C09.sunrise_same_offsets",
             "Astral.C09.sunset_same_offsets", "Astral.C09.dusk_same_offsets", "Astral.C09.elevation_fold",
         ],
-        "groups": [G("corr_loc", "location", 800, 15000), G("corr_norm", "norm", 3500, 80000), G("corr_geo", "dms", 1500, 20000),
+        "groups": [G("corr_moon", "moon_riseset", 1500, 30000), G("corr_loc", "location", 800, 15000), G("corr_norm", "norm", 3500, 80000), G("corr_geo", "dms", 1500, 20000),
                    G("corr_sun", "sun_events", 1500, 30000)],
         "unproved": [],
         "assumes": ["zoneinfo resolves a name to the zone the harness tabulated"],
